@@ -253,6 +253,9 @@ func (fc *FuncCtx) ap0(v ssa.Value) string {
 				if sv := fc.singleStore(al, x); sv != nil {
 					return fc.AP(sv)
 				}
+				if sv := lastStoreInBlock(al, x); sv != nil {
+					return fc.AP(sv)
+				}
 			}
 			return fc.AP(x.X)
 		case token.NOT:
@@ -441,4 +444,50 @@ func sortedKeys[V any](m map[string]V) []string {
 	}
 	sort.Strings(ks)
 	return ks
+}
+
+// lastStoreInBlock: for a load of a local that does not escape, the value of the last store to it that
+// precedes the load in the same block (go/ssa spills results to locals in functions with defer).
+func lastStoreInBlock(al *ssa.Alloc, load *ssa.UnOp) ssa.Value {
+	for _, r := range *al.Referrers() {
+		switch y := r.(type) {
+		case *ssa.Store:
+			if y.Addr != ssa.Value(al) {
+				return nil
+			}
+		case *ssa.UnOp, *ssa.DebugRef:
+		default:
+			return nil
+		}
+	}
+	var last ssa.Value
+	for _, in := range load.Block().Instrs {
+		if in == ssa.Instruction(load) {
+			return last
+		}
+		if st, ok := in.(*ssa.Store); ok && st.Addr == ssa.Value(al) {
+			last = st.Val
+		}
+	}
+	return nil
+}
+
+// Resolve looks through loads of non-escaping locals.
+func Resolve(v ssa.Value) ssa.Value {
+	for i := 0; i < 4; i++ {
+		ld, ok := v.(*ssa.UnOp)
+		if !ok || ld.Op != token.MUL {
+			return v
+		}
+		al, ok := ld.X.(*ssa.Alloc)
+		if !ok {
+			return v
+		}
+		sv := lastStoreInBlock(al, ld)
+		if sv == nil {
+			return v
+		}
+		v = sv
+	}
+	return v
 }
